@@ -202,7 +202,7 @@ impl<'a> Gen<'a> {
             0 | 1 | 2 => format!("({} * {})", self.any(rng, depth - 1), self.any(rng, depth - 1)),
             3 | 4 => format!("({} / {})", self.any(rng, depth - 1), self.any(rng, depth - 1)),
             5 | 6 => {
-                let e = *rng.pick(&["2", "3", "(-1)", "(-2)", "(1/2)", "(1/3)", "(2/3)", "0.5", "1.5", "(2*3)", "(6/4)", "(1+1)", "(3-1)", "(2^2)", "(-(1/2))"]);
+                let e = *rng.pick(&["2", "3", "(-1)", "(-2)", "(1/2)", "(1/3)", "(2/3)", "0.5", "1.5", "(2*3)", "(6/4)", "(1+1)", "(3-1)", "(2^2)", "(-(1/2))", "0.1234", "(1/1024)", "1.0625"]);
                 self.tags.push("power".into());
                 format!("({}^{})", self.any(rng, depth - 1), e)
             }
@@ -339,7 +339,9 @@ impl<'a> Gen<'a> {
             }
             12 => {
                 // power with a compile-time evaluated exponent whose static value is the rational `r`
-                let (x, r) = *rng.pick(&[("(1/2)", "1/2"), ("0.5", "1/2"), ("(2*3)", "6"), ("(3/2)", "3/2"), ("1.5", "3/2"), ("(1/4+1/4)", "1/2"), ("(2/3)", "2/3"), ("(2^2)", "4"), ("(0.5+0.5)", "1"), ("(0.25*2)", "1/2"), ("(3-1)", "2")]);
+                let (x, r) = *rng.pick(&[("(1/2)", "1/2"), ("0.5", "1/2"), ("(2*3)", "6"), ("(3/2)", "3/2"), ("1.5", "3/2"), ("(1/4+1/4)", "1/2"), ("(2/3)", "2/3"), ("(2^2)", "4"), ("(0.5+0.5)", "1"), ("(0.25*2)", "1/2"), ("(3-1)", "2"),
+                    // exponents whose exact value needs a large denominator (single literals: the run-time exponent is exact)
+                    ("0.1234", "617/5000"), ("(1/1024)", "1/1024"), ("(5/2048)", "5/2048"), ("0.0009765625", "1/1024"), ("1.0625", "17/16"), ("(1001/1000)", "1001/1000"), ("2.718", "1359/500")]);
                 let d = (*rng.pick(&self.dims)).clone();
                 let u = self.unit_of(rng, &d);
                 let v = self.fresh("v");
